@@ -313,8 +313,28 @@ let c04ev_check line =
       verdict (c04_sb cfg p.init p.hist seen) "C04:rounds-not-the-least-k-of-the-rule"
     | _ -> verdict false ("outcome:" ^ (if String.length obs > 80 then String.sub obs 0 80 else obs))
 
+(* C03 reported figures: the model's Stats.sample_count / iter_count of a state holding m samples of size s *)
+let fig_model line =
+  let t = kv line in
+  let s = n_of_string (get t "s" "1") and m = int_of_string (get t "m" "0") in
+  let st = { s_mode = MCollect s; s_rem = None; s_elapsed = N0; s_size = s;
+             s_store = { st_samples = List.init m (fun _ -> n_of_small 1000); st_allocs = []; st_counts = qconst [] };
+             s_sizes = [] } in
+  match stat_iter_count st with
+  | Panic e -> "panic " ^ string_of_panic e
+  | Ok it -> Printf.sprintf "samples=%s iters=%s" (string_of_n (stat_sample_count st)) (string_of_n it)
+
+let fig_check line =
+  let (case, impl) = split_sb line in
+  let t = kv case and r = kv impl in
+  match (try Some (n_of_string (get r "samples" "-"), n_of_string (get r "iters" "-")) with _ -> None) with
+  | Some (sa, it) -> verdict (c03_fig_sb (n_of_string (get t "s" "1")) (n_of_string (get t "m" "0")) sa it) "C03:iters-not-samples-times-size"
+  | None -> verdict false ("outcome:" ^ impl)
+
 let dispatch mode line =
   match mode with
+  | "c03fig" -> fig_model line
+  | "c03fig.sb" -> fig_check line
   | "c04ev" -> c19cli_model line
   | "c04ev.sb" -> c04ev_check line
   | "c19cli" -> c19cli_model line
